@@ -176,6 +176,51 @@ pub fn judge(sc: &SchedScenario, mut x: Execution, want: &[&str]) -> SchedOutcom
         }
     }
 
+    // ---- C08: runs handed out concurrently are disjoint and within the requested count ----
+    if has("C08") {
+        let cb = sc.img.cluster_bits;
+        let mut runs: Vec<(u64, u64, usize)> = vec![];
+        for r in x.records.iter() {
+            if let (Op::Alloc(n), Some((off, cnt))) = (&r.op, r.res.alloc) {
+                if cnt == 0 || cnt > *n {
+                    out.push(viol(sc, &x, "C08", "alloc:bad-count".into(), format!("T{} {} returned {} clusters", r.task, r.op.short(), cnt)));
+                }
+                runs.push((off >> cb, (off >> cb) + cnt as u64, r.task));
+            }
+        }
+        for i in 0..runs.len() {
+            for j in i + 1..runs.len() {
+                if runs[i].0 < runs[j].1 && runs[j].0 < runs[i].1 {
+                    out.push(viol(
+                        sc,
+                        &x,
+                        "C08",
+                        "alloc:handed-out-twice:concurrent".into(),
+                        format!("T{} got host clusters {:#x}..{:#x} and T{} got {:#x}..{:#x}", runs[i].2, runs[i].0, runs[i].1, runs[j].2, runs[j].0, runs[j].1),
+                    ));
+                }
+            }
+        }
+        runs.hash(&mut h);
+        // settle and check ownership
+        let fr = std::panic::catch_unwind(std::panic::AssertUnwindSafe(|| futures::executor::block_on(x.world.dev().flush_meta())));
+        if let Ok(Ok(())) = fr {
+            let rep = crate::spec::check_image(&x.world.sim.borrow().files[0]);
+            if let Some((c, d)) = rep.first_problem(false) {
+                out.push(viol(sc, &x, "C08", format!("ownership:{}:concurrent:{}", c, sig), d));
+            }
+            for (c, st, n) in rep.leaked.iter() {
+                let held = runs.iter().any(|r| *c >= r.0 && *c < r.1);
+                if !held || *st != 1 {
+                    out.push(viol(sc, &x, "C08", format!("ownership:leak:concurrent:{}", sig), format!("host cluster {:#x} stored {} refs {} and no requester holds it", c, st, n)));
+                    break;
+                }
+            }
+        } else {
+            out.push(viol(sc, &x, "C08", "flush-failed:concurrent".into(), format!("{:?}", fr.map(|r| r.map_err(|e| format!("{e:?}"))))));
+        }
+    }
+
     // ---- final observations ----
     let rd0 = x.world.rd.clone(); // state after the set-up
     let bs = 1usize << sc.cfg.bs_bits;
